@@ -272,7 +272,7 @@ __CPROVER_ensures(vfM.mur_tail_done == 1 && vfM.mur_blocks == __CPROVER_old(vfM.
 #endif
 #ifndef VF_MUR
 #define VF_MUR_BLOCK_REQ
-#define VF_MUR_BLOCK_ENS
+#define VF_MUR_BLOCK_ENS __CPROVER_ensures(vfM.mur_blocks == __CPROVER_old(vfM.mur_blocks))
 #define VF_MUR_UPDATE_REQ
 #define VF_MUR_UPDATE_ENS
 #define VF_MUR_FINALIZE_REQ
